@@ -46,6 +46,7 @@ kernel!(c17q_kernel_n2, n2, 2, 5);
 kernel!(c17q_kernel_n3, n3, 3, 6);
 kernel!(c17q_kernel_n4, n4, 4, 7);
 kernel!(c17q_kernel_n5, n5, 5, 8);
+kernel!(c17t_kernel_n8, n8, 8, 11);
 
 /// negative twin: "256 is a valid index" must FAIL
 #[kani::proof]
